@@ -5,6 +5,8 @@ package proxy
 import (
 	"context"
 	"fmt"
+	"google.golang.org/grpc/codes"
+	"google.golang.org/grpc/status"
 	"strconv"
 	"testing"
 
@@ -86,6 +88,13 @@ func TestVerifLcm(t *testing.T) {
 			case "D":
 				p := lcmParams(i32(f[1]), i32(f[2]), f[3] == "1")
 				client := &vfAdminClient{describe: &adminservice.DescribeClusterResponse{HistoryShardCount: i32(f[4]), ClusterName: "c"}}
+				if len(f) > 5 {
+					// the first upstream calls fail: U unavailable, I internal, D deadline exceeded, A aborted, R resource exhausted
+					for _, ch := range f[5] {
+						code := map[rune]codes.Code{'U': codes.Unavailable, 'I': codes.Internal, 'D': codes.DeadlineExceeded, 'A': codes.Aborted, 'R': codes.ResourceExhausted}[ch]
+						client.describeErrs = append(client.describeErrs, status.Error(code, "verif: upstream fault"))
+					}
+				}
 				srv := NewAdminServiceProxyServer("verif", client, client, AdminServiceOverrides{}, []string{"inbound"}, func(int32, int32) {},
 					config.ShardCountConfig{Mode: config.ShardCountLCM}, p, RoutingParameters{}, loggers, nil, context.Background())
 				resp, err := srv.DescribeCluster(context.Background(), &adminservice.DescribeClusterRequest{})
